@@ -174,9 +174,9 @@ def build():
            rewrites=[('R-outline', r'for \(charpos, \(bytepos, _\)\) in self\.text\.char_indices\(\)\.enumerate\(\) \{',
                       'let vx_pairs = vx_char_index_pairs(vx_text(&self.text)); for vx_p in vx_it: vx_pairs.iter() { let (charpos, bytepos) = *vx_p;'),
                      ('R-smallvec', r'smallvec!\(\)', 'vec![]'),
-                     ('R-outline', r'self\s*\.positionindex\s*\.0\s*\.entry\(charpos\)\s*\.or_insert_with\(\|\| (PositionIndexItem \{.*?\})\);',
-                      r'vx_or_insert(&mut self.positionindex.0, charpos, \1);', 'opt'),
-                     ('R-outline', r'self\.byte2charmap\.entry\(bytepos\)\.or_insert\(charpos\);', 'vx_or_insert(&mut self.byte2charmap, bytepos, charpos);', 'opt')],
+                     ('R-outline', r'self\s*\.positionindex\s*\.0\s*\.entry\((\w+)\)\s*\.or_insert_with\(\|\| (PositionIndexItem \{.*?\})\);',
+                      r'vx_or_insert(&mut self.positionindex.0, \1, \2);', 'opt'),
+                     ('R-outline', r'self\.byte2charmap\.entry\((\w+)\)\.or_insert\((\w+)\);', r'vx_or_insert(&mut self.byte2charmap, \1, \2);', 'opt')],
            requires=[('interval', 'interval > 0'), ('index_ok', 'old(self).idx_ok()')],
            ensures=[('index_ok', 'final(self).idx_ok()'), ('text_frame', 'final(self).text == old(self).text && final(self).textlen == old(self).textlen'),
                     ('existing_entries_untouched', 'forall|p: usize| old(self).positionindex.0@.contains_key(p) ==> #[trigger] final(self).positionindex.0@.contains_key(p) && final(self).positionindex.0@[p] == old(self).positionindex.0@[p]'),
